@@ -289,7 +289,23 @@ def sib_htmlstack(p, res):
         v = shape.View(p, f, inline=False)
         for n in v.nodes:
             if isinstance(n, ast.Call) and isinstance(n.func, ast.Attribute) and n.func.attr == 'append' and src_of(n.func.value) == 'stack':
-                if any('pos' in fs.replace('(', ' ').replace(')', ' ').split() for fs, _ in v.facts(n, expand_defs=False)):
+                # tests that decide whether this push happens while the scan goes on: enclosing tests and earlier guard clauses that
+                # leave the callback without stopping the scan (a guard that returns False ends the scan: no later closing tag is seen)
+                pm = p.parents(f)
+                tests, x = [], n
+                while x is not None and x is not f.node:
+                    par = pm.get(x)
+                    if isinstance(par, (ast.If, ast.While)) and x is not par.test:
+                        tests.append(par.test)
+                    for field in ('body', 'orelse'):
+                        lst = getattr(par, field, None)
+                        if isinstance(lst, list) and x in lst:
+                            for g in lst[:lst.index(x)]:
+                                if isinstance(g, ast.If) and g.body and isinstance(g.body[-1], ast.Return) and not g.orelse \
+                                        and not (isinstance(g.body[-1].value, ast.Constant) and g.body[-1].value.value is False):
+                                    tests.append(g.test)
+                    x = par
+                if any(isinstance(m, ast.Name) and m.id == 'pos' for t in tests for m in ast.walk(t)):
                     return n, src_of(v.stmt_of(n)), 'whether an opening tag is pushed depends on the position: its closing tag is still compared with the stack top and pairs with the wrong element'
         return None
     for fq in ('html_matcher.match.scan_callback', 'html_matcher.balanced_outward.scan_callback', 'html_matcher.balanced_inward.scan_callback'):
@@ -403,7 +419,12 @@ def dec_charclass(p, res):
             got = bool(ev.call(f, [c]))
             if got != bool(want(c)):
                 bad.append(c)
-        if bad:
+        if bad and all(c != '' and ord(c) >= 128 and not want(c) for c in bad):
+            # only characters outside ASCII, and only *added* to the class: input that was rejected (outside the documented, ASCII
+            # grammar) is accepted now -- an extension, not a change of what the class decides inside the grammar
+            res.undecided('%s: %d non-ASCII character(s) added to the class, e.g. %r' % (f.short, len(bad), bad[:6]),
+                          'the documented grammar is ASCII; whether the extension is consistent with the sibling classes is not decided')
+        elif bad:
             res.bad(F('DEC-CHARCLASS', f, f.node, '%s(%r) -> %r' % (f.name, bad[0], not want(bad[0])),
                       'character class changed for %d character(s), e.g. %r' % (len(bad), bad[:6])))
         else:
